@@ -598,6 +598,9 @@ CORPUS = [
                               node(5, estimate=['f', (0.0).hex()], spent=['i', 0])]},
     {'kind': 'round', 'wbs': []},
     {'kind': 'round', 'wbs': [node(0)]},
+    # integer ids that no binary64 float represents (round Y/Z: ids parsed through float())
+    {'kind': 'round', 'wbs': [node(2 ** 53 + 1, 'big', kids=[node(2 ** 53 + 3, 'kid'), node(-(2 ** 53) - 1, 'neg')]),
+                              node(10 ** 17 + 1, 'waits', preds=[2 ** 53 + 3, -(2 ** 53) - 1]), node(2 ** 63 + 5, 'wide', preds=[10 ** 17 + 1])]},
     # hand-written files
     {'kind': 'read', 'file': HDR + '\n2;c;;;;;;;1;\n1;p;;01.02.24;;1.5;;True;;\n3;x;;;;;;False;;"1;2"', 'how': ['LF', 'child-first', 'no-final-newline'],
      'meaning': [node(1, 'p', start=D(2024, 2, 1), estimate=['f', (1.5).hex()], milestone=True, kids=[node(2, 'c')]), node(3, 'x', preds=[1, 2])]},
